@@ -1,8 +1,16 @@
 """C04 — deleting an entity removes it, what it owns and every link to it — nothing else (structural model).
 
+(T) harness/extract/delshape.py renders the statement lists of the deletion code (Container / SectionContainer /
+SourceContainer / LinkContainer.__delitem__, the visitor of H5Group.delete_all, the parameters of H5Group.delete, every
+container constructor call, the metadata / link / extents deleters, the shape of util/find.py) as
+NixModel/Generated/DeleteShape.lean; Store/DelShape.lean interprets them and Props/C04 proves that their meaning is the
+hand-written model (`*_follows_source`, `source_delete_gone`), so an edit of that code breaks a named theorem or no
+longer translates.
+
 correspondence: deletion-heavy operation histories over link topologies (one target linked from several groups /
 tags / multi-tags / features / role links, nested sources and sections, names reused in different parents, deletion
-by name, id, index, negative index and object), executed in lockstep on real nixio and on the Lean graph model; the
+by name, id, index, negative index and object; data frames in group lists / as feature data / with metadata; range
+dimensions linked to arrays and frames), executed in lockstep on real nixio and on the Lean graph model; the
 HDF5-level dump of the whole file is compared after every mutation.
 
 oracle (implementation alone, no model): canonical walk of the public API before and after every deletion /
@@ -59,6 +67,7 @@ THEOREMS = [
     "Nix.C04.source_delete_gone",
     "Nix.C04.delete_step_gone",
     "Nix.C04.history4_delete",
+    "Nix.C04.dimLink_after_delete",
 ]
 ASSUMPTIONS = [
     "every reference nixio keeps to an entity is an HDF5 hard link (owning container entry, link-list entry, role "
@@ -74,6 +83,18 @@ ASSUMPTIONS = [
     "drawn): history_frame, history_delete_exact",
     "that HDF5 frees what became unreachable is not observable through the API and not modelled",
     "uuid4 ids are drawn from an abstract fresh supply",
+    "(T) the translator harness/extract/delshape.py accepts only the statement forms listed in its docstring "
+    "(anything else: broken tie); isinstance(item, Entity) is read as 'an entity object that is not a Feature', "
+    "isinstance(item, self._itemclass) as 'an object of the container's item kind'; the body of H5Group.delete, "
+    "H5Group.__delitem__ / __contains__, util/find.py and find_sections / find_sources are compared with templates "
+    "(only the default of delete_if_empty and the depth bound are parameters), so `findIds` gives a meaning to that "
+    "one shape only; h5py's visititems is taken to run the visitor on every group reachable from the file root",
+    "the error class of a refused `del container[<entity object>]` is compared as 'refused' only (a Feature whose "
+    "data is gone raises RuntimeError from its __str__ inside util.is_uuid, the shared model says TypeError; the "
+    "file is unchanged either way)",
+    "data frames and dimension links (Store/C04Ext, Op4): the gone / unreachable theorems hold for every graph and "
+    "hence for Op4 histories (history4_delete); the frame at full strength (history_frame, history_delete_exact) is "
+    "proved for the Op language of Store/Step only — WF preservation by createFrame / dimLink is not proved",
 ]
 TRUSTED_EXTRA = ["harness/lib/storeimpl.py + storegen.py (path addressing by iteration, HDF5-level dump with h5py)",
                  "harness/lib/walk.py (canonical walk of the public API used by the oracle)"]
@@ -85,13 +106,26 @@ MANIFEST = {
                   "and key form, after a successful delete no container lookup, iteration or role link yields the "
                   "entity (or, for sections / sources, anything in its subtree), everything reachable only through "
                   "it is unreachable from the root, every other link list keeps its remaining entries in order and "
-                  "all attributes; unlinking / clearing a role link removes one link only. Tied to the code by "
-                  "differential execution of deletion-heavy histories (HDF5-level dump compared after every "
-                  "mutation) and by an implementation-side walk-difference oracle.",
+                  "all attributes; unlinking / clearing a role link removes one link only; the frame holds exactly on "
+                  "the files in which no linked object shares its entity_id (iff theorem), which is an invariant of "
+                  "copy-free histories. Tied to the code (T) by an ast translator that renders the statement lists of "
+                  "the deletion code (the __delitem__ variants, the delete_all visitor, H5Group.delete, the container "
+                  "constructor table, the role-link deleters, util/find.py) into Generated/DeleteShape.lean, with "
+                  "kernel-checked theorems that the meaning of these statement lists is the model, (C) by "
+                  "differential execution of deletion-heavy histories incl. data frames and dimension links "
+                  "(HDF5-level dump compared after every mutation) and by an implementation-side walk-difference "
+                  "oracle.",
     "level_note": "Partial: the frame theorem needs 'no other object shares the entity_id' (false after "
                   "keep_copy_id=True copies: known finding, counterexample theorem); subtree completeness assumes a "
-                  "finite forest within the model's fuel; HDF5 space reclamation is not modelled. Trusted: Lean "
-                  "kernel, standard axioms, the correspondence harness, h5py/HDF5 link semantics.",
+                  "finite forest within the model's fuel (decidable form evaluated by the driver for every section / "
+                  "source deletion of the runs); full-strength frame for histories with data frames / dimension links "
+                  "not proved (gone / unreachable are); HDF5 space reclamation is not modelled. Trusted: Lean kernel, "
+                  "standard axioms, the translator's reading of isinstance / visititems, the correspondence harness, "
+                  "h5py/HDF5 link semantics.",
+    "technique": "Lean 4 proof (graph-level lemmas about delete_all for every graph, induction over operation "
+                 "histories for the id-distinctness invariant, refinement of the source's own statement lists - rendered "
+                 "by an ast translator - to the hand-written model) with differential correspondence (HDF5-level dump "
+                 "after every mutation) and a walk-difference oracle on the implementation",
 }
 
 
@@ -472,6 +506,10 @@ def compare(ops, outs, model):
         if op[0] == "dump" and isinstance(o, dict) and isinstance(o.get("ok"), list):
             return {"ok": canon_dump(o["ok"])}
         if op[0] in ("append", "create_feature") and isinstance(o, dict) and "err" in o:
+            return {"err": "refused"}
+        if op[0] == "del" and isinstance(o, dict) and "err" in o and isinstance(op[3], dict) and "o" in op[3]:
+            # an entity object of the wrong class as key: refused on both sides; the class of the error is TypeError
+            # except for a Feature whose data was deleted (its __str__, called by util.is_uuid, raises RuntimeError)
             return {"err": "refused"}
         return o
     outs2 = [prep(o, op) for o, op in zip(outs, ops)]
